@@ -166,7 +166,21 @@ func drawModulus(t *rapid.T) *big.Int {
 func TestRSATokenKeyEncoding(t *testing.T) {
 	s := rt.S("rsa-token-key").SetRule("RSA public keys drawn as numbers (modulus 1..4200 bits incl. DER length-form and leading-00 boundaries, exponent in {3,17,65537,2^31-1} or drawn) and the 2048-bit pool keys: UnmarshalTokenKey inverts both SPKI forms, the PSS form equals the harness's DER template, MarshalTokenKey(legacy flag) selects the form; non-trivial = every key; distinct by (N, E)")
 	pool := gen.RSAPool()
+	// decoded keys are HELD across later decodes (a directory of issuer keys): each must keep the value it was decoded with
+	type held struct {
+		key *rsa.PublicKey
+		n   *big.Int
+		e   int
+	}
+	var ring []held
 	rt.Check(t, 2000, 1000000, func(t *rapid.T) {
+		for _, h := range ring {
+			if h.key.N.Cmp(h.n) != 0 || h.key.E != h.e {
+				rt.Fail(t, "C18/decoded-key-changed", "a key returned by UnmarshalTokenKey earlier (N %x E %d) now reads N %x E %d: later decodes changed it", h.n, h.e, h.key.N, h.key.E)
+				ring = nil
+				return
+			}
+		}
 		var n *big.Int
 		var e int
 		if gen.Uniform(t, 10, "usepool") == 0 {
@@ -214,6 +228,26 @@ func TestRSATokenKeyEncoding(t *testing.T) {
 			}
 			if back.N.Cmp(n) != 0 || back.E != e {
 				rt.Fail(t, "C18/"+form+"-roundtrip", "decode(encode(key)) != key: N %x E %d, got N %x E %d", n, e, back.N, back.E)
+				return
+			}
+			ring = append(ring, held{back, new(big.Int).Set(n), e})
+			if len(ring) > 16 {
+				ring = ring[len(ring)-16:]
+			}
+			// a decode that FAILS half-way (valid modulus, then garbage) in between
+			if bad := append([]byte{}, enc...); len(bad) > 8 {
+				bad[len(bad)-3] ^= 0xff
+				rt.GuardLite(func() { _, _ = util.UnmarshalTokenKey(bad) })
+			}
+		}
+		// within the case (reproducible from the case alone): decode this key, then ANOTHER key, then look at the first again
+		{
+			first, err1 := util.UnmarshalTokenKey(pss)
+			n2 := new(big.Int).Add(n, big.NewInt(2))
+			other, _ := util.MarshalTokenKeyPSSOID(&rsa.PublicKey{N: n2, E: e})
+			second, err2 := util.UnmarshalTokenKey(other)
+			if err1 != nil || err2 != nil || first.N.Cmp(n) != 0 || first.E != e || second.N.Cmp(n2) != 0 {
+				rt.Fail(t, "C18/decoded-key-changed", "key decoded (N %x), then another key decoded (N %x): the first now reads N %x, the second N %x (%v %v)", n, n2, first.N, second.N, err1, err2)
 				return
 			}
 		}
